@@ -381,6 +381,9 @@ pub enum Opened {
 }
 
 /// Open an image with the real store, scan everything, close.
+pub const PROBE_VALUE: &[u8] = b"probe-after-recovery";
+pub const PROBE_FILLERS: usize = 12;
+
 thread_local! {
     /// (tables flushed by the recovery of the last `open_and_scan` on this thread, active memtable non-empty after it,
     /// non-empty WAL segment files in the image) - a side channel used to choose images for the next generation
@@ -402,7 +405,7 @@ fn count_files(dir: &Path, ext: &str, nonempty: bool) -> usize {
     n
 }
 
-pub fn open_and_scan(cfg: &Cfg, db: &Path, rt: &tokio::runtime::Runtime, probe_commit: bool) -> Opened {
+pub fn open_and_scan(cfg: &Cfg, db: &Path, rt: &tokio::runtime::Runtime, probe: Option<&[Vec<u8>]>) -> Opened {
     let tables_before = count_files(db, "sst", false);
     let wal_nonempty = count_files(&db.join("wal"), "wal", true);
     LAST_RECOVERY.with(|c| c.set((0, false, wal_nonempty)));
@@ -435,20 +438,31 @@ pub fn open_and_scan(cfg: &Cfg, db: &Path, rt: &tokio::runtime::Runtime, probe_c
                 Ok(out)
             })();
             let mut extra = None;
-            if probe_commit && res.is_ok() {
-                // C07: a commit after recovery must be ordered after everything recovered
+            if let (Some(extra_keys), true) = (probe, res.is_ok()) {
+                // C07: commits after recovery must be ordered after EVERYTHING recovered - also after recovered entries
+                // that are not visible (yet). One probe transaction overwrites every key the workload ever wrote and
+                // every key of the scan; PROBE_FILLERS single-key commits then move the visible sequence on (a recovered
+                // entry with a sequence number above the probe's would surface now); then every key is read back.
                 let r2: Result<(), String> = async {
+                    let mut keys: Vec<Vec<u8>> = res.as_ref().unwrap().keys().cloned().chain(extra_keys.iter().cloned()).filter(|k| !k.is_empty()).collect();
+                    keys.push(b"~probe".to_vec());
+                    keys.sort();
+                    keys.dedup();
                     let mut txn = tree.begin().map_err(|e| format!("{e:?}"))?;
-                    for k in res.as_ref().unwrap().keys().take(3) {
-                        txn.set(k.as_slice(), b"probe-after-recovery".as_slice()).map_err(|e| format!("{e:?}"))?;
+                    for k in &keys {
+                        txn.set(k.as_slice(), PROBE_VALUE).map_err(|e| format!("{e:?}"))?;
                     }
-                    txn.set(b"~probe".as_slice(), b"probe-after-recovery".as_slice()).map_err(|e| format!("{e:?}"))?;
                     txn.commit().await.map_err(|e| format!("probe commit: {e:?}"))?;
+                    for i in 0..PROBE_FILLERS {
+                        let mut t = tree.begin().map_err(|e| format!("{e:?}"))?;
+                        t.set(b"~fill".as_slice(), &[i as u8][..]).map_err(|e| format!("{e:?}"))?;
+                        t.commit().await.map_err(|e| format!("filler commit {i}: {e:?}"))?;
+                    }
                     let t2 = tree.begin_with_mode(surrealkv::Mode::ReadOnly).map_err(|e| format!("{e:?}"))?;
-                    for k in res.as_ref().unwrap().keys().take(3).cloned().chain(std::iter::once(b"~probe".to_vec())) {
+                    for k in &keys {
                         match t2.get(k.as_slice()) {
-                            Ok(Some(v)) if v == b"probe-after-recovery" => {}
-                            other => return Err(format!("probe commit on {} is shadowed by recovered data: {:?}", key_str(&k), other.map(|o| o.map(|b| b.len())))),
+                            Ok(Some(v)) if v == PROBE_VALUE => {}
+                            other => return Err(format!("probe commit on {} is shadowed by recovered data: {:?}", key_str(k), other.map(|o| o.map(|b| b.len())))),
                         }
                     }
                     Ok(())
@@ -594,6 +608,10 @@ pub fn check_generation(
     let marks = marks_of(&run.trace);
     let states = states_of(base_state, &run.commits);
     let ckeys: Vec<Vec<Vec<u8>>> = run.commits.iter().map(|c| c.iter().map(|w| w.0.clone()).collect()).collect();
+    // every key this and the earlier generations wrote (for C07's probe commit)
+    let mut probe_keys: Vec<Vec<u8>> = ckeys.iter().flatten().cloned().chain(base_state.keys().cloned()).collect();
+    probe_keys.sort();
+    probe_keys.dedup();
     let img = ctx.scratch.join("img");
     let mut fs = base_fs.clone();
     let mut next_point = 0usize;
@@ -659,7 +677,7 @@ pub fn check_generation(
             );
             let aux = json!({"generation": gen_no, "point": p, "model": format!("{cm:?}"), "in_recovery": marks.in_recovery[p], "arena_full_allowed": known_f03,
                 "unsynced_files": fs.files.iter().filter(|(_, f)| f.synced < f.data.len()).map(|(k, f)| format!("{k}:{}/{}", f.synced, f.data.len())).collect::<Vec<_>>() });
-            match open_and_scan(ctx.cfg, &img.join("db"), ctx.rt, ctx.judge == Judge::Reopen) {
+            match open_and_scan(ctx.cfg, &img.join("db"), ctx.rt, if ctx.judge == Judge::Reopen { Some(&probe_keys[..]) } else { None }) {
                 Opened::Panicked(m) => return Err(fail("recovery-panic", format!("{what}: opening the image panicked: {m}"), aux)),
                 Opened::OpenFailed(e) if ctx.judge == Judge::Reopen => {
                     if let Ok(keep) = std::env::var("VERIF_KEEP_IMG") {
@@ -710,13 +728,14 @@ pub fn check_generation(
                         Judge::Reopen => {
                             // the image was opened, scanned, a probe commit was made and read back; now open it again
                             let mut expect = got.clone();
-                            let pv = b"probe-after-recovery";
-                            let sig = (pv.len(), hash64(&pv[..]));
-                            for k in got.keys().take(3).cloned().collect::<Vec<_>>() {
+                            let sig = (PROBE_VALUE.len(), hash64(PROBE_VALUE));
+                            for k in got.keys().cloned().chain(probe_keys.iter().cloned()).filter(|k| !k.is_empty()).collect::<Vec<_>>() {
                                 expect.insert(k, sig);
                             }
                             expect.insert(b"~probe".to_vec(), sig);
-                            match open_and_scan(ctx.cfg, &img.join("db"), ctx.rt, false) {
+                            let last = [(PROBE_FILLERS - 1) as u8];
+                            expect.insert(b"~fill".to_vec(), (1, hash64(&last[..])));
+                            match open_and_scan(ctx.cfg, &img.join("db"), ctx.rt, None) {
                                 Opened::State(got2) if got2 == expect => {}
                                 Opened::State(got2) => {
                                     return Err(fail("second-open-differs", format!("{what}: after recovery + one commit + clean close the store reopens with different contents: {}", explain_diff(&expect, &got2)), aux))
@@ -996,7 +1015,7 @@ pub fn crash_strategy(stride: u16, arena_full: bool) -> BoxedStrategy<CrashCase>
 pub fn crash_prop(id: &'static str, judge: Judge, stride: u16, arena_full: bool) -> PropDef<CrashCase> {
     let rule = match judge {
         Judge::Acked => "case = generated workload (one-shot transactions of 1..6 keys with Eventual / Immediate durability, flush_wal(sync), rotate, flush, compaction rounds, clean reopen, key-window phases; tiny memtables/blocks; vlog on/off) run in a child process under an LD_PRELOAD recorder of every file operation, plus a continuation workload for a second generation. Crash images are ENUMERATED: at every file-operation boundary of the trace (all of them for traces <= 300 operations, otherwise every boundary within 2 operations of a marker / rename / unlink / fsync / open plus a strided sample) one process-crash image (all completed writes kept) and two power-loss images (every file cut to its fsynced length; the last write torn at 1 / 3 / 6 / 7 / half / all-but-one of its bytes). Each image is opened with the real store and scanned; two of the recovered images are continued by the second workload under the recorder and crashed again. Oracle C02: every key must carry the value written by the last commit that was acknowledged before the crash (under power loss: acknowledged with Immediate durability, or before a completed flush_wal(true) / clean close) or by a later commit. Non-trivial: a case with images on which at least one commit was required, including power-loss images. evaluations counts workloads; coverage.totals.n_images counts opened images.",
-        Judge::Reopen => "crash stream of C07: workload in a child process under the LD_PRELOAD recorder; process-crash and power-loss images at the selected file-operation boundaries (also inside recovery of a reopen and on second-generation traces). Every image must open, scan without error, accept a probe commit that is read back unshadowed, close cleanly and open a second time with exactly the scanned contents plus the probe.",
+        Judge::Reopen => "crash stream of C07: workload in a child process under the LD_PRELOAD recorder; process-crash and power-loss images at the selected file-operation boundaries (also inside recovery of a reopen and on second-generation traces). Every image must open, scan without error, accept a probe transaction that overwrites every key the workload ever wrote (visible after recovery or not) followed by 12 single-key commits, read all of them back unshadowed, close cleanly and open a second time with exactly the scanned contents plus the probe and filler writes.",
         Judge::Prefix => "case and crash-image enumeration as for C02 (workload in a child process under the LD_PRELOAD recorder; process-crash and power-loss images at every selected file-operation boundary, including the middle of WAL records, flushes, manifest replacement, compaction, WAL clean-up and recovery itself; second generation on recovered images). Oracle C03: the full recovered key->value map must EQUAL the state after some prefix of the commit order reported by the workload process (commits started before the crash point), i.e. every transaction is all-or-nothing, no later transaction without all earlier ones, nothing deleted or overwritten inside the prefix reappears. Non-trivial: a case with >= 2 admissible prefixes at some checked image and at least one power-loss image. evaluations counts workloads; coverage.totals.n_images counts opened images.",
     };
     PropDef {
